@@ -21,6 +21,9 @@ for r,_,fs in os.walk(base+'/repo/verif_probes'):
 gen = base+'/gen'
 subprocess.check_call(['go','build','-o',gen,'./testdata/gqlgen.go'],cwd=base+'/repo',env=env)
 def combos():
+    if os.environ.get('OPTSWEEP_PAIRS'):
+        for a, b in itertools.combinations(OPTS, 2): yield (a, b)
+        return
     for o in OPTS: yield (o,)
     yield tuple(OPTS)
     yield tuple(o for o in OPTS if o not in ('struct_fields_always_pointers=false',))
@@ -56,7 +59,7 @@ def run(job):
     return (name, opts, 'ok', '')
 jobs=[(p,o,i) for p in probes for i,o in enumerate(combos())]
 bad=0
-with cf.ThreadPoolExecutor(6) as ex:
+with cf.ThreadPoolExecutor(int(os.environ.get('OPTSWEEP_JOBS','6'))) as ex:
     for name,opts,st,msg in ex.map(run,jobs):
         if st!='ok':
             bad+=1
